@@ -281,6 +281,13 @@ inductive HState where
 def HState.toNat : HState → Nat
   | .initial => 0 | .afterHeaders => 1 | .afterTrailers => 2
 
+inductive Frame where
+  | data (n : Nat)
+  | headers (hs : Headers)
+  | pushPromise (hs : Headers)
+  | other (ftype : Nat)
+  deriving Repr, DecidableEq
+
 /-- the fields of `H3Stream` (+ `H3Connection._is_client/_is_done`) that decide
     what a request or push stream reports -/
 structure St where
@@ -298,19 +305,17 @@ structure St where
   recvEnded : Bool := false
   /-- `H3Connection._is_done` -/
   done : Bool := false
+  /-- `stream.blocked`: the HEADERS / PUSH_PROMISE frame waiting for the QPACK
+      encoder stream, with the header list it will decode to -/
+  blocked : Option Frame := none
+  /-- `stream.buffer` while blocked: the complete frames received meanwhile -/
+  pending : List Frame := []
   deriving Repr, DecidableEq
 
 inductive Event where
   | headers (hs : Headers) (ended : Bool)     -- HeadersReceived
   | data (n : Nat) (ended : Bool)             -- DataReceived with `len(data) = n`
   | pushPromise (hs : Headers)                -- PushPromiseReceived
-  deriving Repr, DecidableEq
-
-inductive Frame where
-  | data (n : Nat)
-  | headers (hs : Headers)
-  | pushPromise (hs : Headers)
-  | other (ftype : Nat)
   deriving Repr, DecidableEq
 
 /-- `_check_content_length` -/
@@ -461,6 +466,98 @@ def trace : St → List Op → List Event
 def finalState : St → List Op → St
   | s, [] => s
   | s, op :: ops => finalState (step s op).1 ops
+
+/-! ### QPACK-blocked streams
+
+`_handle_request_or_push_frame` raises `pylsqpack.StreamBlocked` from
+`_decode_headers`; `_receive_request_or_push_data` then only buffers what
+arrives; `_receive_stream_data_uni` (peer encoder stream) resumes the frame by
+calling `_handle_request_or_push_frame` DIRECTLY and then re-enters
+`_receive_request_or_push_data` for the buffered bytes. -/
+
+/-- the inputs of a request / push stream, including those that block and the
+    encoder-stream delivery that unblocks -/
+inductive QOp where
+  | plain (op : Op)
+  /-- a complete HEADERS frame whose block needs dynamic-table entries not received yet -/
+  | hdrb (hs : Headers) (fin : Bool)
+  /-- likewise a PUSH_PROMISE frame -/
+  | ppb (hs : Headers) (fin : Bool)
+  /-- the encoder-stream bytes arrive: `feed_encoder` reports the stream unblocked -/
+  | unblock
+  deriving Repr, DecidableEq
+
+/-- the complete frames (and the FIN flag) an op consists of; `none` for ops
+    that leave a DATA frame unfinished -/
+def opFrames : Op → Option (List Frame × Bool)
+  | .hdr hs fin => some ([.headers hs], fin)
+  | .data total present fin => if present = total then some ([.data total], fin) else none
+  | .frag _ _ => none
+  | .fin => some ([], true)
+  | .pp hs fin => some ([.pushPromise hs], fin)
+  | .other t fin => some ([.other t], fin)
+  | .hdrdata hs n fin => some ([.headers hs, .data n], fin)
+
+def qapplicable (s : St) : QOp → Bool
+  | .plain op => applicable s op && (s.blocked.isNone || (opFrames op).isSome)
+  | .hdrb hs _ => s.blocked.isNone && s.rem = 0 && encodable hs
+  | .ppb hs _ => s.blocked.isNone && s.rem = 0 && encodable hs
+  | .unblock => s.blocked.isSome
+
+/-- the frame loop of `_receive_request_or_push_data` over complete frames:
+    `stream_ended` only for the last one -/
+def processFrames (s : St) : List Frame → Outcome (St × List Event)
+  | [] => .ok (s, [])
+  | f :: fs => do
+    let (s, e1) ← handleFrame s f (s.recvEnded && fs.isEmpty)
+    let (s, e2) ← processFrames s fs
+    .ok (s, e1 ++ e2)
+
+def qreceive (s : St) (q : QOp) : Outcome (St × List Event) :=
+  match q with
+  | .plain op =>
+    match s.blocked with
+    | none => receive s op
+    | some _ =>
+      -- `stream.buffer += data; if stream_ended: receiving_ended = True; if stream.blocked: return []`
+      match opFrames op with
+      | some (fs, fin) => .ok ({ s with recvEnded := s.recvEnded || fin, pending := s.pending ++ fs }, [])
+      | none => .ok (s, [])
+  | .hdrb hs fin =>
+    let s := { s with recvEnded := s.recvEnded || fin }
+    if s.hstate = .afterTrailers then .error frameUnexpected     -- raised before decoding
+    else .ok ({ s with blocked := some (.headers hs) }, [])
+  | .ppb hs fin =>
+    let s := { s with recvEnded := s.recvEnded || fin }
+    if s.isPush then .error frameUnexpected
+    else if ¬ s.isClient then .error frameUnexpected
+    else .ok ({ s with blocked := some (.pushPromise hs) }, [])
+  | .unblock =>
+    match s.blocked with
+    | none => .ok (s, [])
+    | some f => do
+      -- `stream_ended = stream.receiving_ended and not stream.buffer`
+      let (s1, e1) ← handleFrame s f (s.recvEnded && s.pending.isEmpty)
+      let s1 := { s1 with blocked := none, pending := [] }
+      -- `if stream.buffer: self._receive_request_or_push_data(stream, b"", receiving_ended)`
+      let (s2, e2) ← processFrames s1 s.pending
+      .ok (s2, e1 ++ e2)
+
+/-- `H3Connection.handle_event` for all inputs -/
+def qstep (s : St) (q : QOp) : St × List Event × Option Err :=
+  if s.done then (s, [], none)
+  else if ¬ qapplicable s q then (s, [], none)
+  else match qreceive s q with
+    | .ok (s', evs) => (s', evs, none)
+    | .error e => ({ s with done := true }, [], some e)
+
+def qtrace : St → List QOp → List Event
+  | _, [] => []
+  | s, q :: qs => (qstep s q).2.1 ++ qtrace (qstep s q).1 qs
+
+def qfinal : St → List QOp → St
+  | s, [] => s
+  | s, q :: qs => qfinal (qstep s q).1 qs
 
 /-! ### what the application observes -/
 
